@@ -257,7 +257,10 @@ def decide(prop, mod, a, seed, procs, binfo, t0, workdir, native):
         oracle_errors.extend(res["oracle_errors"])
         for k2, v2 in res.get("info", {}).items():
             if isinstance(v2, (int, float)) and not isinstance(v2, bool):
-                info[k2] = info.get(k2, 0) + v2
+                if k2.startswith("max_"):
+                    info[k2] = max(info.get(k2, v2), v2)
+                else:
+                    info[k2] = info.get(k2, 0) + v2
             elif isinstance(v2, list):
                 info.setdefault(k2, [])
                 for x in v2:
